@@ -43,6 +43,8 @@ def main():
         r0 = subprocess.run(["/venv/bin/python", "-W", "ignore", demo_local], cwd=wt, env=env, capture_output=True, text=True, timeout=1800)
         res["ran"].append(f"demo on unchanged HEAD: exit {r0.returncode} ({time.time()-t:.0f}s)")
         r = sh(f"git -C {wt} apply {os.path.join(src, 'patch.diff')}")
+        if r.returncode:
+            r = sh(f"git -C {wt} apply --3way {os.path.join(src, 'patch.diff')}")
         res["ran"].append(f"git apply patch.diff: exit {r.returncode}")
         assert r.returncode == 0, r.stderr
         t = time.time()
